@@ -167,6 +167,12 @@ def coq_item(it, tokmap, intern):
 PREAMBLE = """
 Require Import Verif.Gen.C17Allow.
 Definition lk (c : N) : lkind := match c with 0 => LSingleField | 1 => LEnumOnly | 2 => LMulLike | _ => LError end.
+Definition run_legacy_enabled (name : N) (it : item) : option nat :=
+  match find (fun r => fst (fst r) =? name) c17_allow_table with
+  | Some (_, k, (e, v, s, f)) =>
+      enabled_count (legacy_attrs (lk k) name {| al_enum := e; al_variant := v; al_struct := s; al_field := f |} it)
+  | None => None
+  end.
 Definition run_legacy (name : N) (it : item) : option err :=
   match find (fun r => fst (fst r) =? name) c17_allow_table with
   | Some (_, k, (e, v, s, f)) =>
@@ -192,6 +198,40 @@ def coq_call(derive, it, tokmap, intern):
     if derive == "Debug":
         return "verdict (I_debug_attrs %s)" % item
     return "run_legacy %d %s" % (n, item)
+
+
+def coq_result_call(derive, it, tokmap, intern):
+    """model results that are observable in the real expansion (None: nothing tied for this derive)"""
+    item = coq_item(it, tokmap, intern)
+    n = intern.ident(I.ATTR_OF[derive])
+    if derive in I.DISPLAY_FAMILY:
+        return "I_display_bounds %d %s" % (n, item)
+    if derive == "Debug":
+        return "I_debug_bounds %s" % item
+    if derive == "IsVariant":
+        return "run_legacy_enabled %d %s" % (n, item)
+    return None
+
+
+def render_toks(t, rev):
+    """parsed Coq `list tok` -> source text without white space"""
+    out = []
+    for x in t:
+        if x[0] == "TId":
+            out.append(rev.get(x[1], "?%d" % x[1]))
+        elif x[0] == "TPu":
+            out.append(chr(x[1]))
+        elif x[0] in ("TStr", "TLit"):
+            out.append("<lit%d>" % x[1])
+        else:
+            o, c = {0: "()", 1: "[]", 2: "{}"}.get(x[1], ("", ""))
+            out.append(o + render_toks(x[2], rev) + c)
+    return "".join(out)
+
+
+def is_subsequence(a, b):
+    it = iter(b)
+    return all(any(x == y for y in it) for x in a)
 
 
 # ------------------------------------------------------------------ classes of findings
@@ -446,6 +486,41 @@ def run(tier, seed, replay):
         elif not r_acc and m_cls == "EPanic" and c["real"] != "panic-internal":
             chk.violation("tie-model-panic:%s" % family(c["derive"]), dict(_rp(c), model=str(t), real=c["real"]),
                           "Coq model predicts an internal panic, the real expander reports %s" % c["real"])
+    # ---- tie of model RESULTS that are observable in the expansion: the explicit bounds of the fmt derives
+    #      (a subsequence of the real where clause, in order) and the enabled variants of IsVariant
+    rexprs, rcases = [], []
+    for c in tied:
+        if c["real"] != "ok":
+            continue
+        e = coq_result_call(c["derive"], c["item"], tokmap, intern)
+        if e is not None:
+            rexprs.append(e)
+            rcases.append(c)
+    rterms = common.coq_eval(["Verif.C17.Model"], rexprs, preamble=PREAMBLE, batch=300, tag="c17r")
+    rev = {v: k for k, v in intern.ids.items()}
+    n_res = 0
+    for c, t in zip(rcases, rterms):
+        r = R[(c["derive"], c["item_src"])]
+        impls = [x for x in _flat(r.get("items") or []) if x.get("kind") == "impl"]
+        n_res += 1
+        if t == "None":
+            chk.violation("tie-model-result:%s" % family(c["derive"]), dict(_rp(c), model=str(t)),
+                          "the model yields no result for the accepted `%s`" % c["item_src"])
+            continue
+        if c["derive"] == "IsVariant":
+            real_n = len(impls[0]["members"]) if impls else -1
+            if t[1] != real_n:
+                chk.violation("tie-model-result:IsVariant", dict(_rp(c), model=t[1], real=real_n),
+                              "model: %s enabled variants, real: %d is_* methods for `%s`" % (t[1], real_n, c["item_src"]))
+            continue
+        mb = [render_toks(x, rev) for x in (t[1] if isinstance(t[1], list) else [])]
+        rw = [_nows(x) for x in (impls[0].get("where") or [])] if impls else []
+        chk.bump("tie:result:%s" % ("explicit-bounds" if mb else "no-explicit-bounds"))
+        if not is_subsequence(mb, rw):
+            chk.violation("tie-model-result:%s" % family(c["derive"]), dict(_rp(c), model=mb, real=rw),
+                          "explicit bounds of the model %s are not (in this order) in the real where clause %s of `%s`" % (
+                              mb, rw, c["item_src"]))
+    chk.cov["results_tied"] = n_res
     chk.cov["traces_validated_against_impl"] = n_tie
 
     # ---- real proc-macro + rustc on a sample (thorough tier, or VERIF_C17_RUSTC=1: the shared cargo target
